@@ -40,15 +40,15 @@ def fq(name):
 # family A: x86-64, one installation at injector_core level
 # ---------------------------------------------------------------------------------------------
 H("x64_core_redirect", variant="x64-linux", modules=["rt", "x64dec", "x64_core"],
-  covers=["COVER: rel32 trampoline form", "COVER: abs64 trampoline form",
+  covers=["COVER: rel32 trampoline form", "COVER: abs64 trampoline form", "COVER: page writable before the installation", "COVER: page read-only before the installation",
           "COVER: entry patch straddles a page boundary", "COVER: target below 128 MiB",
           "COVER: trampoline above the target", "COVER: trampoline below the target"],
   functions=X64_CORE_FUNCS,
-  symbolic="f in [4096,2^46) any page offset; 24 initial entry bytes; t in [1,2^63); trampoline j = any free page with |j-f| <= 128 MiB; full register file, rsp, return address",
+  symbolic="f in [4096,2^46) any page offset; 24 initial entry bytes; page initially writable or not; t in [1,2^63); trampoline j = any free page with |j-f| <= 128 MiB; full register file, rsp, return address",
   bounds="one installation + drop; loop unwind 26 (covers every loop in the path; unwinding assertions on)",
   assumptions=["allocate_jit_memory is replaced by its contract (a fresh page anywhere within +-128 MiB of the target); the real retry loop + real entry branch are decided by the x64_alloc harnesses (C11)",
                "the fake's address is not inside the patched entry slot or the trampoline page"],
-  cex_schema=[("f", 8, 1), ("entry_bytes", 1, 24), ("t", 8, 1), ("j", 8, 1)],
+  cex_schema=[("f", 8, 1), ("entry_bytes", 1, 24), ("was_writable", 1, 1), ("t", 8, 1), ("j", 8, 1)],
   replay="replay_x64_core")
 H("x64_core_boolean", variant="x64-linux", modules=["rt", "x64dec", "x64_core"],
   covers=["COVER: true", "COVER: false"],
@@ -395,15 +395,15 @@ PROPERTIES = {
     "C02": dict(
         seed_rotation=['x64_api_flavours', 'a64_core_boolean', 'panic_at_p4', 'normal_exit_p5'],
         level_text="Bounded model checking of restoration: (a) one installation from an arbitrary entry state restores byte-for-byte for every address placement (the inductive step: each guard puts back exactly what it overwrote); (b) histories through the public API with K=2 functions and L<=2 (quick) / L<=3 (thorough) installations with symbolic targets and kinds, including the same function several times: while the injector lives the latest installation is in effect, after drop every entry equals its original image; two consecutive lifetimes; L<=3 on the 32-bit ARM variant (same drop logic, cheaper encoding).",
-        level_note="Histories longer than 3 installations are outside the bound; the stack argument (guards released newest first, each restoring what it saved) is exercised in full at L=3 but is not proved for unbounded L. Allocator replaced by its contract in history harnesses. Unwinding is modelled as scope exit (C05).",
-        quick=["x64_core_redirect", "x64_core_boolean", "x64_api_hist_l1", "x64_alloc_any_4k", "arm_api_same2", "arm_api_same3", "panic_at_p2"],
-        thorough=["x64_core_redirect", "x64_core_boolean", "x64_api_hist_l1", "x64_api_hist_l2", "x64_api_hist_l3", "x64_api_hist_l1x2", "arm_api_same2", "arm_api_same3", "a64_core_redirect"],
+        level_note="Histories longer than 3 installations are outside the bound; the stack argument (guards released newest first, each restoring what it saved) is exercised in full at L=3 but is not proved for unbounded L. Allocator replaced by its contract in history harnesses. Unwinding is modelled as scope exit (C05); a scope exit that itself panics in call-count verification is covered by verification_panic_comes_after_restore (same function faked twice, wrong count).",
+        quick=["x64_core_redirect", "x64_core_boolean", "x64_api_hist_l1", "x64_alloc_any_4k", "arm_api_same2", "arm_api_same3", "panic_at_p2", "verification_panic_comes_after_restore"],
+        thorough=["x64_core_redirect", "x64_core_boolean", "x64_api_hist_l1", "x64_api_hist_l2", "x64_api_hist_l3", "x64_api_hist_l1x2", "arm_api_same2", "arm_api_same3", "a64_core_redirect", "panic_at_p2", "verification_panic_comes_after_restore"],
         timeout_min={"quick": 25, "thorough": 180},
         outside=["histories longer than L=3", "more than two distinct functions per history", "fake kinds other than redirect/forced boolean in histories (closure/fake!/async reach the same guard constructor; see C01/C14)"],
     ),
     "C03": dict(
         seed_rotation=['arm_core_t32_aligned', 'x64_alloc_layout_16m', 'a64_core_boolean', 'win_core_redirect'],
-        level_text="The memory model itself is the oracle: every write the code issues must start at a registered function entry or at a trampoline it mapped and must fit the slot (16 bytes entries / 24 bytes trampolines), else the obligation fails; bytes behind the patch and a second function packed 16 bytes away stay identical during and after; mprotect may not drop r-x from text. Decided for every address placement (single install, all variants built so far) and for API histories K=2, L<=2/3.",
+        level_text="The memory model itself is the oracle: every write the code issues must start at a registered function entry or at a trampoline it mapped and must fit the slot (16 bytes entries / 24 bytes trampolines), else the obligation fails; bytes behind the patch and a second function packed 16 bytes away stay identical during and after; mprotect may not drop r-x from text, and a function's page that was writable before the installation (code arena; initial protection symbolic in x64_core_redirect) is still writable after the injector is gone. Decided for every address placement (single install, all variants built so far) and for API histories K=2, L<=2/3.",
         level_note="Relies on all code-memory writes going through ptr::copy_nonoverlapping: any other dereference of a simulated (integer) address is reported by Kani's pointer checks as a failed check and makes the run inconclusive, so the assumption is checked, not trusted. Mappings the model does not know (shared libraries) are outside.",
         quick=["x64_core_redirect", "x64_core_boolean", "x64_api_hist_l1", "x64_alloc_any_4k", "arm_core_a32", "arm_core_t32_misaligned"],
         thorough=["x64_core_redirect", "x64_core_boolean", "x64_api_hist_l1", "x64_api_hist_l2", "x64_api_hist_l3", "x64_alloc_any_4k", "x64_alloc_layout_16m", "a64_core_redirect", "a64_alloc_any_4k",
@@ -677,14 +677,17 @@ def premise_poison_recovery(work, tier):
     """C05 native premise (NOT a solver step): Kani builds std with panic=abort, where mutex poisoning is
     compiled out, so the poisoned branch of NoPoisonMutex::lock cannot be reached in the model.  Real run:
     a thread panics while holding an injector with a fake installed; afterwards the function is restored,
-    nothing is leaked and a new injector can be created and used (with a deadline)."""
+    nothing is leaked and a new injector - or, first thing, a preventer on a fresh thread - can be obtained
+    (each under a deadline) and used."""
     scn = ("func 0 - 1024 11\nfakefn F near 777\nthread_panic 0 F\nbytes 0\ncall 0 11\nmaps\n"
            "new\nraw 0 F\ncall 0 777\ndrop\nbytes 0\ncall 0 11\nmaps\n"
-           "thread_panic 0 F\nnew\nbool 0 1\ncall 0 1\ndrop\ncall 0 11\nmaps\n")
+           "thread_panic 0 F\nnew\nbool 0 1\ncall 0 1\ndrop\ncall 0 11\nmaps\n"
+           # the guard must be obtainable by a preventer too, first thing after a poisoning exit, and again
+           "thread_panic 0 F\nprevent\nnew_deadline\nprevent\nnew\nraw 0 F\ncall 0 777\ndrop\ncall 0 11\nmaps\n")
     r = _native(work, scn, "poison")
     ok = r.get("reproduced")
     # reproduced == False means every expectation was met
-    return {"name": "poison_recovery", "ok": (True if ok is False else (False if ok is True else None)), "evaluations": 2, "distinct": 2,
+    return {"name": "poison_recovery", "ok": (True if ok is False else (False if ok is True else None)), "evaluations": 3, "distinct": 3,
             "violations": ["after a real unwinding exit with a fake installed: " + r.get("detail", "")] if ok is True else [],
             "detail": r.get("detail", ""), "samples": [scn]}
 
@@ -947,6 +950,9 @@ def replay_x64_core(rec, work):
         echo = "fakeecho E %s" % ("far" if abs(disp) > 0x7fffffff else "near")
         scn = ("func 0 %x %d 11\n%s\n%s\nwatch 0\nnew\nraw 0 F\nflushed 0\ncall 0 777\ncallregs 0 777\ndrop\nflushed 0\nbytes 0\ncall 0 11\nmaps\n"
                "new\nraw 0 E\ncallstack 0 305419896\ndrop\ncall 0 11\n") % (f, off, fake, echo)
+        if cx.get("was_writable", 0) & 1:
+            # the function's page was writable before (code arena): it must still be after the injector is gone
+            scn = scn.replace("\nwatch 0\n", "\nrwpage 0\nwatch 0\n", 1) + "permw 0\n"
     return _native(work, scn, rec["harness"])
 
 
